@@ -7,7 +7,7 @@ from pathlib import Path
 
 VERIF = Path(__file__).resolve().parent.parent
 
-LABRUN_NOTE = ('Trusted: TLC; the hook placement of DESIGN 6.1 (events are emitted at the linearization points); '
+LABRUN_NOTE = ('Trusted: TLC; the hook placement of DESIGN 5.1 (events are emitted at the linearization points); '
                'the universe task types of lv/universe; bounded model (3-4 tasks, <= 3 types); R2 executes worker '
                'thunks at process start on virtual processes, R3 samples real processes.')
 
@@ -26,63 +26,63 @@ CHECKS = {
     'C01': ('LabRunAbs C01_Keys/C01_Values/C01_Digest: TLC checks them on LabRun (all DAGs on 3 tasks x request lists x '
             'cache pre-states x backends x worker counts) through the refinement mapping, then every execution of the real '
             'code driven along TLC-generated schedules (R2 virtual processes, serial, R3 real fork/spawn) is judged by the '
-            'property-level monitor.', '7 C01'),
+            'property-level monitor.', '6 (C01)'),
     'C02': ('LabRunAbs C02_SubmitAfterDeps/RunAfterDeps/StartAfterSubmit (step properties) and C02_RealResult, incl. failing '
-            'dependencies; model-checked on LabRun, then monitored on executions of the real code under TLC schedules.', '7 C02'),
+            'dependencies; model-checked on LabRun, then monitored on executions of the real code under TLC schedules.', '6 (C02)'),
     'C03': ('LabRunAbs C03_OnlyNeeded/AtMostOnce/LoadIffCached/OutcomeStable/Marked over all pre-cached subsets x requested '
-            'lists x bust_cache; model-checked, then monitored on real executions (instance marking observed on the object graph).', '7 C03'),
+            'lists x bust_cache; model-checked, then monitored on real executions (instance marking observed on the object graph).', '6 (C03)'),
     'C04': ('LabRunAbs C04_Workers/C04_Type in every state of LabRun (deaths, multi-completion batches) and on every event '
-            'of recorded executions (parent accounting in R2, real run() overlap in R3).', '7 C04'),
+            'of recorded executions (parent accounting in R2, real run() overlap in R3).', '6 (C04)'),
     'C05': ('LabRunAbs C05_AtRest (the property\'s second sentence verbatim) at every resting point of the model and of '
-            'recorded executions; the at-rest marker is the coordinator\'s own liveness sample.', '7 C05'),
+            'recorded executions; the at-rest marker is the coordinator\'s own liveness sample.', '6 (C05)'),
     'C09': ('TaskValues: every accepted case is run once under a caching Lab sharing one storage with all other cases, types and '
             'another cache format; cached_tasks is called for every type; TaskValuesObs checks C09_Reconstruct, C09_ListedOnce (exactly '
             'once, same key, stored result_meta, re-running loads the stored result) and C09_NoForeign; CacheHistoryTrace adds C09_Listing '
-            'after every call of every replayed history.', '7 C09'),
+            'after every call of every replayed history.', '6 (C09)'),
     'C10': ('LabRunAbs C10_* for every subset of failing tasks (exception) and every death pattern the schedules contain, '
-            'both continue_on_failure values; model-checked, then monitored on real executions on all three backends.', '7 C10'),
+            'both continue_on_failure values; model-checked, then monitored on real executions on all three backends.', '6 (C10)'),
     'C11': ('Safety C11_NoIdleWait / C11_NoSpin (monitor) plus TLC liveness <>Terminated under fairness on LabRun; hangs of '
-            'the real code are decided from the coordinator\'s own poll events, not from clocks.', '7 C11'),
+            'the real code are decided from the coordinator\'s own poll events, not from clocks.', '6 (C11)'),
     'C06': ('CacheHistory (the Lab as a plain map over time): TLC enumerates all Run/Uncache histories up to the bound over small '
             'universes; sampled histories are replayed on real Labs (providers x cache formats x serial/fork/spawn; later calls in '
             'fresh interpreters under other hash seeds); CacheHistoryTrace recomputes each call on the map and checks '
-            'C06_NoRunOnHit / LoadReturnsStored / MetaPreserved / CachedAfterRun against what was returned and observable.', '7 C06'),
+            'C06_NoRunOnHit / LoadReturnsStored / MetaPreserved / CachedAfterRun against what was returned and observable.', '6 (C06)'),
     'C07': ('TaskValues: TLC checks Deser(Ser(v)) = v (hence key injectivity), idempotent normalisation and type-distinguishing keys '
             'over the whole bounded grammar (raw trees x 4 task types incl. same-named / prefix-named / subclass types, reserved dict keys) '
             'and emits every case; the real code computes each case\'s cache_key (also after pickling, rebuilding, reconstruction, and in '
-            'fresh interpreters under other hash seeds); TaskValuesObs checks C07_Deterministic / C07_Distinct (pairwise) / C07_StorageAccepts.', '7 C07'),
+            'fresh interpreters under other hash seeds); TaskValuesObs checks C07_Deterministic / C07_Distinct (pairwise) / C07_StorageAccepts.', '6 (C07)'),
     'C08': ('Same machinery, formulas C08_RunExecutesWhatItNeeds / MapEvolution / EntryValues / NothingElseStored (and C09_Listing): '
             'after every call is_cached of every task, cached_tasks per type, a load of every entry and the key count must equal '
-            'the map model; cache=None types, Lab(storage=None), LocalStorage and an fsspec-backed storage.', '7 C08'),
+            'the map model; cache=None types, Lab(storage=None), LocalStorage and an fsspec-backed storage.', '6 (C08)'),
     'C12': ('SaveProtocol NoPoison after every single Raise: TLC model-checks the save protocol (first save, overwrite); on the '
             'code, the k-th storage/IO operation and the k-th executed line of the save path raise, for every k, over result '
-            'shapes x cache formats x first/overwrite x providers; SaveProtocol!ObsPoison judges what a later Lab observes.', '7 C12'),
+            'shapes x cache formats x first/overwrite x providers; SaveProtocol!ObsPoison judges what a later Lab observes.', '6 (C12)'),
     'C13': ('SaveProtocol NoPoison after every single Kill: same model; on the code a real worker process kills itself at the '
             'k-th operation / line / half-way through a write (with and without flush), SIGKILL and SIGTERM, fork and spawn; a '
-            'later Lab observes is_cached / cached_tasks / load / re-run.', '7 C13'),
+            'later Lab observes is_cached / cached_tasks / load / re-run.', '6 (C13)'),
     'C14': ('LabRunAbs C14_ExitClass/NoStartAfterInterrupt/RunningFinish/RunningCached/CacheConsistent with 0-2 interrupts at every '
             'coordinator location of LabRun; on the code: KeyboardInterrupt injected at every line boundary of serial runs '
             '(exhaustive), sampled boundaries and double interrupts on virtual processes, TLC-placed interrupts, and real '
-            'SIGINT (single, double, to the process group) at resting points of real fork/spawn runs.', '7 C14'),
+            'SIGINT (single, double, to the process group) at resting points of real fork/spawn runs.', '6 (C14)'),
     'C15': ('TaskValues: TLC checks Norm over the grammar incl. unsupported kinds and non-string keys; every case is constructed with '
             'the real code: TaskValuesObs checks C15_AcceptReject (TaskError iff Norm rejects), C15_Normalised (observed tree = Norm), '
-            'C15_Frozen, C15_EqHash, C15_Deps and C15_Pickle (copy equal, same key and dependencies, post_init state, no context/results).', '7 C15'),
+            'C15_Frozen, C15_EqHash, C15_Deps and C15_Pickle (copy equal, same key and dependencies, post_init state, no context/results).', '6 (C15)'),
     'C16': ('LabRunAbs C16_Env: facts recorded inside run() on real serial/fork/spawn runs (pid, parent, thread, visibility of a '
             'parent-mutated global, fresh import) and the filtered context, judged by the monitor; stored entries compared '
-            'between two runs under different contexts.', '7 C16'),
+            'between two runs under different contexts.', '6 (C16)'),
     'C18': ('LocalPaths: TLC checks, for every key / filename token sequence (dot segments, separators, empty strings, absolute paths, '
             'names of symlinks pointing outside, to siblings, dangling) x every mode, that the transcribed validation + symlink resolution '
             'confines what exists / file_handle / delete touch; every case is replayed on the real LocalStorage in a fresh sandbox with an '
-            'audit hook and snapshots; LocalPathsObs evaluates ObsConfined on the observed touched set.', '7 C18'),
+            'audit hook and snapshots; LocalPathsObs evaluates ObsConfined on the observed touched set.', '6 (C18)'),
     'C19': ('LabRunAbs C19_ExactlyOnce: TLC checks the log-queue design in LabRun (records precede the outcome, drains before '
             'and after the wait); on the code, emitted logger records / stdout / stderr lines vs what the caller\'s handlers '
-            'received, on virtual and real processes, every print/flush pattern of the family.', '7 C19'),
+            'received, on virtual and real processes, every print/flush pattern of the family.', '6 (C19)'),
     'C17': ('LabRunAbs C17_Retained/Prompt/Captured/EmptyAtReturn/OnlyNew with failures; the runner\'s held set is logged '
-            'by hooks after every completion and release.', '7 C17'),
+            'by hooks after every completion and release.', '6 (C17)'),
     'C20': ('TaskDiagram: TLC checks that the transcribed work-list traversal of TaskStructure.build yields exactly the reachable types and '
             '<<from, parameter, to, many>> relationships for every input of the grammar (shared and duplicated dependencies, collections '
             'nested to depth 3); the real build_task_diagram output is parsed back and judged by TaskDiagramObs (one block per type with all '
-            'parameters and run(), one arrow per relationship, "many" exactly when expected, deterministic across interpreters).', '7 C20'),
+            'parameters and run(), one arrow per relationship, "many" exactly when expected, deterministic across interpreters).', '6 (C20)'),
 }
 
 
